@@ -13,11 +13,20 @@ import threading
 from .. import env, impl, report, solo, terms, tlc
 
 
-def schedules(streams, lengths, shared="none"):
+def schedules(streams, lengths, shared="none", parsers=None, enumerate_schedules=True):
+    """All interleavings of the serializer streams and the parser processes (parsers: name -> name of the workload it reads)."""
     names = sorted(streams)
-    work = ", ".join(f'{n} |-> <<{", ".join(f"<<\"k{(i * 3 + j) % 4}\", \"t{(i + j) % 3}\">>" for j in range(lengths[n]))}>>' for i, n in enumerate(names))
-    text = (f"---- MODULE MCIso ----\nEXTENDS PyIsolation\nSS == {{{', '.join(chr(34) + n + chr(34) for n in names)}}}\nWW == [{work}]\n====\n")
-    cfg = f'SPECIFICATION Spec\nCONSTANTS Streams <- SS Work <- WW SharedState = "{shared}" FlushEvery = 3\nINVARIANT Isolated\nINVARIANT PrintSchedule\nCHECK_DEADLOCK FALSE\n'
+    parsers = parsers or {}
+    def wl(i, n):
+        return f'<<{", ".join(f"<<{chr(34)}k{(i * 3 + j) % 4}{chr(34)}, {chr(34)}t{((i + j) // 2) % 3}{chr(34)}>>" for j in range(lengths[n]))}>>'
+    allw = names + [w for w in sorted(set(parsers.values())) if w not in names]
+    work = ", ".join(f"{n} |-> {wl(i, n)}" for i, n in enumerate(allw))
+    q = lambda n: chr(34) + n + chr(34)  # noqa: E731
+    src = ", ".join(f"{p} |-> {q(w)}" for p, w in sorted(parsers.items()))
+    text = (f"---- MODULE MCIso ----\nEXTENDS PyIsolation\nSS == {{{', '.join(q(n) for n in names)}}}\nWW == [{work}]\n"
+            f"PP == {{{', '.join(q(p) for p in sorted(parsers))}}}\nSRC == {('[' + src + ']') if parsers else 'NoFn'}\n====\n")
+    cfg = (f'SPECIFICATION Spec\nCONSTANTS Streams <- SS Work <- WW SharedState = "{shared}" FlushEvery = 3 Parsers <- PP Src <- SRC\n'
+           'INVARIANT Isolated\nINVARIANT IsolatedRead\n' + ('INVARIANT PrintSchedule\n' if enumerate_schedules else 'VIEW NoSchedView\n') + 'CHECK_DEADLOCK FALSE\n')
     r = tlc.run("MCIso", cfg, module_text=text, workers=1, timeout=600)
     return [json.loads(p) for p in r.printed("SCHEDULE")], r
 
@@ -163,6 +172,20 @@ def main(tier: str) -> int:
         _, rb = schedules({"A", "B"}, {"A": 4, "B": 4}, shared)
         if "Isolated" not in rb.violated:
             env.machinery_failure(f"C12: shared {shared} is not refuted by TLC: Isolated is vacuous")
+    # serializers and parsers together (invariants only; interleavings merged by a VIEW), and the two shared-state designs of the read side refuted
+    mixed = dict(streams={"A", "B"}, lengths={"A": 4, "B": 4, "WP": 6, "WQ": 6}, parsers={"P": "WP", "Q": "WQ"}, enumerate_schedules=False)
+    _, rm = schedules(shared="none", **mixed)
+    if rm.violated or not rm.ok:
+        env.machinery_failure(f"C12: PyIsolation with two parsers: {rm.violated or rm.errors[:2]}")
+    states += rm.distinct
+    trans += rm.generated
+    for shared in ("rtable", "rrep"):
+        _, rb = schedules(shared=shared, **mixed)
+        if "IsolatedRead" not in rb.violated:
+            env.machinery_failure(f"C12: shared {shared} is not refuted by TLC: IsolatedRead is vacuous")
+    sp2, rp2 = schedules(set(), {"WP": 4, "WQ": 4}, "none", parsers={"A": "WP", "B": "WQ"})      # every interleaving of two parsers (named A, B for the replay)
+    if rp2.violated or len(sp2) != 70:
+        env.machinery_failure(f"C12: PyIsolation, two parsers: {rp2.violated}, {len(sp2)} schedules")
     s3 = []
     if tier == "thorough":
         s3, r3 = schedules({"A", "B", "P"}, {"A": 3, "B": 3, "P": 3})
@@ -246,7 +269,7 @@ def main(tier: str) -> int:
     # two (and three) PARSERS stepped alternately, over different streams and over the same bytes (equal table sizes, equal options rows)
     for a, b in ([(x, y) for x in names for y in names] if tier == "thorough" else [tuple(rnd.choice(names) for _ in range(2)) for _ in range(5)] + [(names[0], names[0])]):
         specs = {"A": (a, "par", base[a], solo.workloads()[a][0]), "B": (b, "par", base[b], solo.workloads()[b][0])}
-        for sched in (s2 if tier == "thorough" else rnd.sample(s2, 20)):
+        for sched in (sp2 if tier == "thorough" else rnd.sample(sp2, 20)):
             runs += 1
             check(run_interleaved(specs, sched), specs, {"mode": "two-parsers-interleaved"}, {"pair": [a, b], "schedule": sched})
         runs += 1
@@ -330,7 +353,7 @@ def main(tier: str) -> int:
         "states": states, "transitions": trans, "traces_validated_against_impl": runs, "samples": samples, "exhaustive": False,
         "two_way_schedules": len(s2), "three_way_schedules": len(s3), "runs": runs,
         "nonvacuity": "TLC refutes Isolated for SharedState = rep and SharedState = table",
-        "explanation": "spec/PyIsolation.tla: TLC checks Isolated over all interleavings and enumerates them (70 for 4+4 steps; three-way with a parser); every schedule is imposed on real "
+        "explanation": "spec/PyIsolation.tla: serializer streams AND parser processes; TLC checks Isolated / IsolatedRead over all interleavings, refutes five shared-state designs (rep, table, flow, rtable, rrep) and enumerates them (70 for 4+4 steps; three-way with a parser); every schedule is imposed on real "
                        "generator pipelines (flat_stream_to_frames of both integrations, parse_jelly_flat), then on real threads handing over a baton in that order, then free-running threads "
                        "with a 1 microsecond switch interval; bytes/items are compared with the solo run; prior process history and fresh processes under several PYTHONHASHSEED values likewise",
     })
